@@ -43,6 +43,9 @@ EXTRA = {
         "value row has a non-blank cell) and blockShaped (first cells after the '**' row are neither blank nor "
         "markers); the Python mirrors of these predicates are compared with the Lean ones on every case, including "
         "deliberately ill-formed tables",
+        "datetime columns hold one UTC offset (or none) per column, and nanosecond-precision spellings never sit next to "
+        "a date outside the nanosecond range (DESIGN §13.5): with that, every generated table's plain text must parse, "
+        "and a plain text that does not is reported as a failure",
         "tables without columns are covered separately (TV.wf0: no columns, no rows): both layouts are the two "
         "lines '**name[*]' / destinations, because the empty column-name line ends the block for the splitter",
         "CSV: the model reads the cell rows of the generated stream (one row per line, a line without a separator is "
@@ -117,8 +120,78 @@ def block_shaped(grid):
 
 # ---------------------------------------------------------------------------------------------- table values
 
+MARKERLIKE = ["k:", ":x", "**n", "***d", "note:", "::t"]
+_DT_POOLS = None
+
+
+def dt_pools():
+    """datetime spellings grouped by UTC offset (pandas keeps a datetime column only if all its values carry the same
+    offset, or none): {"naive": [...], "<offset>": [...]}, plus the missing-value markers that fit every column"""
+    global _DT_POOLS
+    if _DT_POOLS is None:
+        import pandas as pd
+        pools, markers = {}, []
+        for sp in c02.WF_SPELL["datetime"]:
+            if sp.strip().lower() in ("-", "nan"):
+                markers.append(sp)
+                continue
+            with warnings.catch_warnings():
+                warnings.simplefilter("ignore")
+                ts = pd.to_datetime(sp.strip())
+            key = "naive" if ts.tzinfo is None else str(ts.utcoffset())
+            pools.setdefault(key, []).append(sp)
+        _DT_POOLS = (pools, sorted(set(markers)))
+    return _DT_POOLS
+
+
+def dt_columns_consistent(t):
+    """every datetime column holds one UTC offset (or none), and no nanosecond-precision value next to a date outside
+    1677-09-21..2262-04-11 — the part of well-formedness `draw_dt_pool` guarantees for generated tables"""
+    import re
+    import pandas as pd
+    for c in t["cols"]:
+        if c["unit"].strip() != "datetime":
+            continue
+        keys, ns, far = set(), False, False
+        for x in c["cells"]:
+            if not isinstance(x, str):
+                keys.add("naive")
+                continue
+            v = x.strip()
+            if v.lower() in ("-", "nan"):
+                continue
+            try:
+                with warnings.catch_warnings():
+                    warnings.simplefilter("ignore")
+                    ts = pd.to_datetime(v)
+            except Exception:  # noqa: BLE001
+                return False
+            keys.add("naive" if ts.tzinfo is None else str(ts.utcoffset()))
+            ns = ns or bool(re.search(r"\.\d{7,}", v))
+            far = far or not (1678 <= ts.year <= 2261)
+        if len(keys) > 1 or (ns and far):
+            return False
+    return True
+
+
+def draw_dt_pool(rng, native):
+    """the spellings one datetime column draws from: one offset; nanosecond precision never next to a date outside the
+    nanosecond range (DESIGN §13.5: pandas gives up on datetime64 there, the reader model does not know)"""
+    pools, markers = dt_pools()
+    key = "naive" if rng.random() < 0.5 else rng.choice(sorted(pools))
+    pool = list(pools[key])
+    if key == "naive":
+        if rng.random() < 0.3:
+            pool = [x for x in pool if x not in ("2262-04-12", "1677-01-01")]
+        else:
+            pool = [x for x in pool if x not in c02.NS_SPELL]
+        if native:
+            pool += [x for x in c02.WF_NATIVE["datetime"] if not isinstance(x, str)]
+    return pool + markers[:3]
+
+
 def gen_tv(rng, native, illformed=None, zero_cols=False, n_rows=None):
-    n_col = rng.choice([1, 1, 2, 3, 4])
+    n_col = rng.choice([1, 1, 2, 2, 3, 3, 4, 4, 6, 9, 17])
     n_row = rng.choice([0, 1, 2, 3, 5])
     if zero_cols:
         n_col, n_row = 0, 0
@@ -126,15 +199,28 @@ def gen_tv(rng, native, illformed=None, zero_cols=False, n_rows=None):
         n_col, n_row = rng.choice([1, 2]), n_rows           # size ladder: long tables, few columns
     kinds = [rng.choice(["text", "onoff", "datetime", "num", "num"]) for _ in range(n_col)]
     names = []
+    # marker-like names / units in a NON-first column are fine row-wise (only the first cell of a line is looked at by
+    # the splitter); such a table is not well formed transposed and is then only rewritten row-wise
+    markerish = n_rows is None and rng.random() < 0.15
     while len(names) < n_col:
         nm = rc.rand_text(rng, NAME_ALPHA, 1, 4).strip()
-        if nm and nm not in names and row_kind([nm]) == "plain" and row_kind([" " + nm + " "]) == "plain":
+        if markerish and names and rng.random() < 0.5:
+            nm = rng.choice(MARKERLIKE)
+        ok_first = row_kind([nm]) == "plain" and row_kind([" " + nm + " "]) == "plain"
+        if nm and nm not in names and (ok_first or (markerish and names)):
             names.append(nm)
     units = [rc.unit_for(rng, k) for k in kinds]
+    if markerish:
+        units = [(rng.choice(["k:", ":u", "**u"]) if j > 0 and kinds[j] == "num" and rng.random() < 0.4 else u)
+                 for j, u in enumerate(units)]
+    dtp = [draw_dt_pool(rng, native) if k == "datetime" else None for k in kinds]
 
-    def cell(k, first):
+    def cell(k, first, j=0):
         for _ in range(50):
-            c = rng.choice(c02.WF_NATIVE[k]) if native and rng.random() < 0.5 else rng.choice(c02.WF_SPELL[k])
+            if k == "datetime":
+                c = rng.choice(dtp[j])
+            else:
+                c = rng.choice(c02.WF_NATIVE[k]) if native and rng.random() < 0.5 else rng.choice(c02.WF_SPELL[k])
             if k == "text" and rng.random() < 0.3:
                 # free text incl. the characters str.splitlines() breaks at but file / stream iteration does not
                 # (VT, FF, FS, GS, RS, NEL, LINE / PARAGRAPH SEPARATOR): they are ordinary cell content
@@ -147,12 +233,20 @@ def gen_tv(rng, native, illformed=None, zero_cols=False, n_rows=None):
         return "x" if k == "text" else "1"
     cols = []
     for j, (nm, u, k) in enumerate(zip(names, units, kinds)):
-        cols.append({"name": nm, "unit": u, "kind": k, "cells": [cell(k, j == 0) for _ in range(n_row)]})
+        cols.append({"name": nm, "unit": u, "kind": k, "cells": [cell(k, j == 0, j) for _ in range(n_row)]})
     while True:
         name = rc.rand_text(rng, NAME_ALPHA, 1, 5).strip().strip("*").strip()
         if name and row_kind(["**" + name]) == "tbl" and row_kind(["**" + name + "*"]) == "tbl":
             break
     dest = rng.choice(["all", "a b", "your_farm my_farm", "x"])
+    if rng.random() < 0.5:
+        # free destinations: one to three tokens; the cell must not be blank or a marker (it starts its line)
+        for _ in range(20):
+            d = " ".join(rc.rand_text(rng, ["a", "b", "é", "_", "1", "x", "-", "T", ".", "e\u0301", "\U0001F600"], 1, 5)
+                         for _ in range(rng.randint(1, 3)))
+            if row_kind([d]) == "plain" and row_kind([" " + d]) == "plain":
+                dest = d
+                break
     t = {"name": name, "dest": dest, "cols": cols, "nrows": n_row}
     if zero_cols:
         return t
@@ -249,11 +343,11 @@ def end_from_json(e):
 
 # ---------------------------------------------------------------------------------------------- rewrites (Python)
 
-def draw_rewrites(rng, t, mode):
+def draw_rewrites(rng, t, mode, only_rowwise=False):
     """-> (layout 'R'|'T', steps as protocol dicts with native cells still in them)"""
     csv = mode == "read_csv"
-    blanks_cells = [""] if csv else ["", " ", None, ""]
-    lay = rng.choice(["R", "T"])
+    blanks_cells = ["", "", "", " ", "  ", "\u00a0", " \u2003"] if csv else ["", " ", None, "", "\u00a0"]
+    lay = "R" if only_rowwise else rng.choice(["R", "T"])
     which = {k for k in ("orient", "pad", "hdr", "comments") if rng.random() < 0.5}
     steps = []
     n_lines = (4 + t["nrows"]) if lay == "R" else (2 + len(t["cols"]))
@@ -276,7 +370,7 @@ def draw_rewrites(rng, t, mode):
             steps.append({"k": "comments", "blank": b,
                           "cells": [rng.choice(COMMENTS) for _ in range(rng.randint(0, 3))]})
         elif k == "pad":
-            pads = [[rng.choice(blanks_cells) for _ in range(rng.choice([0, 0, 1, 2, 5]))]
+            pads = [[rng.choice(blanks_cells) for _ in range(rng.choice([0, 0, 1, 2, 5, 9, 40]))]
                     for _ in range(rng.randint(0, n_lines + 1))]
             steps.append({"k": "pad_trailing", "pads": pads})
     return lay, start, steps
@@ -397,21 +491,43 @@ def csv_source(text, route):
     return path if route["kind"] == "str" else pathlib.Path(path)
 
 
-def impl_read_csv(text, sep, route=None):
-    """read_csv itself on the text, canonicalised like blocks_common.impl_parse_blocks"""
-    from pdtable import read_csv
+MODEL_FIXER = {None: "strict", "class_strict": "strict", "lenient": "lenient", "class_lenient": "lenient",
+               "custom": "custom"}
+NO_OPTS = {"to": "pdtable", "fx": None, "flt": None}
+
+
+def filter_spec(flt, t):
+    """the read filter of the case as an extensional table (same table for the code and for the model)"""
+    if flt is None:
+        return None
+    if flt == "all":
+        return {"accept": [], "default": True}
+    return {"accept": [["TABLE", n, True] for n in sorted({t["name"], "other", "later", "next"})], "default": False}
+
+
+def read_kwargs(opts):
+    from harness.props.c11 import fixer_arg
+    kw = {"to": opts["to"]}
+    if opts["fx"] is not None:
+        kw["fixer"] = fixer_arg(opts["fx"])
+    if opts["flt"] is not None:
+        kw["filter"] = bc.py_filter(opts["flt"])
+    return kw
+
+
+def canon_blocks(it, to):
     from pdtable.table_origin import InputError
     blocks, ending = [], "exhausted"
     try:
         with warnings.catch_warnings():
             warnings.simplefilter("ignore")
-            for bt, val in read_csv(csv_source(text, route), sep=sep):
+            for bt, val in it:
                 first = None
                 try:
                     first = val.metadata.origin.input_location.row
                 except AttributeError:
                     pass
-                blocks.append({"ty": bt.name, "first": first, "val": bc.canon_block(bt, val, "pdtable")})
+                blocks.append({"ty": bt.name, "first": first, "val": bc.canon_block(bt, val, to)})
     except InputError as e:
         ending = {"InputError": getattr(getattr(e.args[0], "load_location", None), "row", None)}
     except Exception as e:  # noqa: BLE001
@@ -420,7 +536,18 @@ def impl_read_csv(text, sep, route=None):
     return {"blocks": blocks, "issues": issues, "ending": ending}
 
 
-def read_tables(mode, stream, sep, route=None):
+def impl_parse_blocks(rows, opts):
+    from pdtable.io.parsers.blocks import parse_blocks
+    return canon_blocks(parse_blocks(iter([list(r) for r in rows]), **read_kwargs(opts)), opts["to"])
+
+
+def impl_read_csv(text, sep, route=None, opts=NO_OPTS):
+    """read_csv itself on the text, canonicalised like blocks_common.impl_parse_blocks"""
+    from pdtable import read_csv
+    return canon_blocks(read_csv(csv_source(text, route), sep=sep, **read_kwargs(opts)), opts["to"])
+
+
+def read_tables(mode, stream, sep, route=None, opts=NO_OPTS):
     """-> (rows the block parser must receive, [(origin row, Table)] | {'exc': cls})"""
     from pdtable import read_csv
     from pdtable.io.parsers.blocks import parse_blocks
@@ -432,12 +559,12 @@ def read_tables(mode, stream, sep, route=None):
             warnings.simplefilter("ignore")
             if mode == "read_csv":
                 text, seen = csv_text(stream, sep)
-                it = read_csv(csv_source(text, route), sep=sep)
+                it = read_csv(csv_source(text, route), sep=sep, **read_kwargs(opts))
             else:
-                it = parse_blocks(iter([list(r) for r in stream]))
+                it = parse_blocks(iter([list(r) for r in stream]), **read_kwargs(opts))
             for bt, val in it:
                 if bt.name == "TABLE":
-                    out.append((val.metadata.origin.input_location.row, val))
+                    out.append((val.metadata.origin.input_location.row if opts["to"] == "pdtable" else None, val))
             return seen, out
     except InputError as e:
         # a block of the surrounding stream (drawn freely, possibly malformed) failed: the blocks before it were
@@ -447,12 +574,13 @@ def read_tables(mode, stream, sep, route=None):
         return seen, {"exc": type(e).__name__}
 
 
-def make_table(grid):
+def make_table(grid, fx=None):
     from pdtable.io.parsers.blocks import make_table as mt
+    from harness.props.c11 import fixer_arg
     try:
         with warnings.catch_warnings():
             warnings.simplefilter("ignore")
-            return mt([list(r) for r in grid])
+            return mt([list(r) for r in grid], **({} if fx is None else {"fixer": fixer_arg(fx)}))
     except Exception as e:  # noqa: BLE001
         return {"exc": type(e).__name__}
 
@@ -461,6 +589,23 @@ def canon_noflag(tab):
     d = rc.canon_table(tab)
     d.pop("transposed", None)
     return d
+
+
+def is_err(x):
+    return isinstance(x, dict) and set(x) == {"exc"}
+
+
+def same_json(a, b):
+    """jsondata form: name, destinations, column names, units and every value"""
+    ca, cb = bc.canon_json_table(a), bc.canon_json_table(b)
+    ca["destinations"], cb["destinations"] = sorted(ca["destinations"]), sorted(cb["destinations"])
+    if ca != cb:
+        return False, {"fields": [k for k in ca if ca[k] != cb.get(k)]}
+    return True, None
+
+
+def canon_any(x):
+    return canon_noflag(x) if hasattr(x, "metadata") else bc.canon_json_table(x)
 
 
 def same_table(a, b):
@@ -493,8 +638,12 @@ def one_case(rng, out, seed, idx, ops, pend, model_ok, tmp=None):
         if rng.random() < 0.08 and not ladder else None
     zero = ill is None and not ladder and rng.random() < 0.06
     t = gen_tv(rng, native, ill, zero_cols=zero, n_rows=ladder)
-    lay, start, steps = draw_rewrites(rng, t, mode)
-    if ladder and rng.random() < 0.7 and lay == "R":
+    t_ok = wf_t(t) and block_shaped(layout_t(t))
+    lay, start, steps = draw_rewrites(rng, t, mode, only_rowwise=(ill is None and not t_ok))
+    to = rng.choice(["pdtable", "pdtable", "jsondata"]) if mode in ("parse_blocks", "read_csv") else "pdtable"
+    fx = rng.choice([None, None, None, "lenient", "custom", "class_strict", "class_lenient"])
+    flt = rng.choice([None, None, "all", "tables"]) if mode in ("parse_blocks", "read_csv") else None
+    if ladder and rng.random() < 0.7 and lay == "R" and t_ok:
         lay, start = "T", "T"
         steps = [st for st in steps if st["k"] in ("pad_trailing",)]
     pre, end = ([], {"by": "eof"}) if mode == "make_table" else draw_end(rng, mode)
@@ -513,7 +662,7 @@ def one_case(rng, out, seed, idx, ops, pend, model_ok, tmp=None):
         sep = rng.choice(free)
     case = {"seed": seed, "index": idx, "mode": mode, "sep": sep, "table": tv_json(t), "layout": lay, "start": start,
             "source": route, "steps": [step_json(s) for s in steps], "pre": grid_to_json(pre), "end": end_json(end),
-            "ill": ill, "zero": zero, "ladder": ladder}
+            "ill": ill, "zero": zero, "ladder": ladder, "to": to, "fixer": fx, "filter": flt}
     eval_case(case, out, ops, pend, model_ok, tmp)
 
 
@@ -524,6 +673,11 @@ def eval_case(case, out, ops, pend, model_ok, tmp):
     steps = [step_from_json(s) for s in case["steps"]]
     pre, end = rows_from_json(case["pre"]), end_from_json(case["end"])
     ill, zero = case.get("ill"), case.get("zero")
+    to, fx, flt = case.get("to") or "pdtable", case.get("fixer"), case.get("filter")
+    out.count("to:" + to)
+    out.count("fixer:" + str(fx))
+    out.count("filter:" + str(flt))
+    opts = {"to": to, "fx": fx, "flt": filter_spec(flt, t)}
     route = None
     if case.get("source"):
         route = {"kind": case["source"][0] if tmp is not None else "stream", "eol": case["source"][1], "tmp": tmp}
@@ -556,61 +710,79 @@ def eval_case(case, out, ops, pend, model_ok, tmp):
     if zero:
         out.count("zero_columns")
 
-    usable = (is_wf or is_wf0) and is_wft and block_shaped(plain) and block_shaped(layout_t(t))
+    # well-formedness is needed in the layout(s) the case involves: row-wise always (the plain text is row-wise),
+    # transposed only when the rewritten text is transposed
+    r_ok = (is_wf or is_wf0) and block_shaped(plain)
+    usable = r_ok and (lay == "R" or (is_wft and block_shaped(layout_t(t))))
     if not usable:
-        out.count("not_wf_both_layouts")
+        out.count("not_wf_in_the_layouts_involved")
         out.evaluations += 1
         return
+    if not (is_wft and block_shaped(layout_t(t))):
+        out.count("rowwise_only_table")
 
     # baseline: the plain row-wise text through the same API
     if mode == "make_table":
-        base = make_table(plain)
+        base = make_table(plain, fx)
     else:
         # the plain text goes the same way (stream / str path / Path), with "\n" line endings
-        _, tabs = read_tables(mode, plain, sep, None if route is None else dict(route, eol="\n"))
-        base = tabs if isinstance(tabs, dict) else (tabs[0][1] if len(tabs) == 1 else {"exc": "not-one-table"})
-    if isinstance(base, dict):
-        out.count("skipped:plain_text_does_not_parse:" + base["exc"])     # e.g. out-of-range timestamp: not WF
+        _, tabs = read_tables(mode, plain, sep, None if route is None else dict(route, eol="\n"), opts)
+        base = tabs if is_err(tabs) else (tabs[0][1] if len(tabs) == 1 else {"exc": "not-one-table"})
+    if is_err(base) and not dt_columns_consistent(t):
+        # not well formed after all (inputs of older corpus entries): datetime values of different UTC offsets, or
+        # nanosecond precision next to a date outside the nanosecond range, in one column
+        out.count("skipped:datetime_column_mixes_offsets_or_ns_range")
+        return
+    if is_err(base):
+        # the generator only draws tables whose plain text must parse: a plain text that does not is a failure
+        out.case(case, nontrivial=True)
+        out.fail("the plain row-wise text of a well-formed table does not read as one table", case, base, "a table",
+                 key="plain_unreadable:" + base["exc"])
         return
     out.case(case, nontrivial=len(steps) > 0 or end["by"] != "eof" or lay == "T")
     out.count("rewrites_applied:%d" % (len(steps) + (end["by"] != "eof") + (lay == "T" and start == "T")))
 
     # rewritten input
     if mode == "make_table":
-        got = make_table(g)
+        got = make_table(g, fx)
         seen = None
     else:
-        seen, tabs = read_tables(mode, stream, sep, route)
-        if isinstance(tabs, dict):
+        seen, tabs = read_tables(mode, stream, sep, route, opts)
+        if is_err(tabs):
             got = tabs
         else:
-            hit = [tb for (row, tb) in tabs if row == len(pre)]
-            got = hit[0] if len(hit) == 1 else {"exc": "table block not delivered at its origin row"}
-    if isinstance(got, dict):
+            # the table under test is the TABLE block after those of `pre`; where the form exposes an origin row it
+            # must be the row the block starts at
+            k = sum(1 for r in pre if row_kind(r) == "tbl")
+            hit = tabs[k:k + 1]
+            if hit and hit[0][0] is not None and hit[0][0] != len(pre):
+                hit = []
+            got = hit[0][1] if len(hit) == 1 else {"exc": "table block not delivered at its origin row"}
+    if is_err(got):
         out.fail("the rewritten text of a well-formed table does not read as one table", case, got, "a table",
                  key="unreadable:" + kinds_key(steps, lay, end))
     else:
-        ok, why = same_table(base, got)
+        ok, why = same_table(base, got) if to == "pdtable" else same_json(base, got)
         if not ok:
             out.fail("a rewrite of the text changed the table", case,
-                     {"differs": why, "got": canon_noflag(got)}, canon_noflag(base),
+                     {"differs": why, "got": canon_any(got)}, canon_any(base),
                      key="changed:" + kinds_key(steps, lay, end))
-        elif bool(got.metadata.transposed) != (lay == "T"):
+        elif to == "pdtable" and bool(got.metadata.transposed) != (lay == "T"):
             out.fail("transposed flag does not follow the layout", case, bool(got.metadata.transposed), lay == "T",
                      key="flag")
 
     # correspondence on the rewritten input
     if model_ok:
         if mode == "make_table":
-            impl = rc.impl_make_table(g, "strict")
-            ops.append(rc.model_op("make_table", g, "strict"))
+            impl = rc.impl_make_table(g, MODEL_FIXER[fx])
+            ops.append(rc.model_op("make_table", g, MODEL_FIXER[fx]))
             pend.append(("make_table", case, impl))
         else:
             # read_csv on the text vs the model on the rows of the generated stream (not on a re-split of the text):
             # a change to how read_csv cuts lines into cells shows up here as a mismatch
-            impl = impl_read_csv(csv_text(stream, sep)[0], sep, route) if mode == "read_csv" else \
-                bc.impl_parse_blocks(seen, to="pdtable")
-            ops.append(bc.model_op(seen, to="pdtable"))
+            impl = impl_read_csv(csv_text(stream, sep)[0], sep, route, opts) if mode == "read_csv" else \
+                impl_parse_blocks(seen, opts)
+            ops.append(bc.model_op(seen, to=to, filt=opts["flt"], fixer_kind=MODEL_FIXER[fx]))
             pend.append(("parse_blocks", case, impl))
 
 
@@ -622,15 +794,19 @@ def kinds_key(steps, lay, end):
 
 def run(tier, seed, model_ok, translator, search=False, _limit=None):
     out = Outcome()
-    out.rule = ("table values well formed in both layouts (0-4 columns — 6% column-less tables — of text / onoff / datetime / numeric spellings, "
-                "0-5 rows, text or native cells) x layout x random subset of {toTransposed, header blanks, comments, "
-                "trailing cells} in random order with random amounts x termination {eof, blank line, next block} x "
-                "optional preceding block, through make_table / parse_blocks / read_csv (5 separators; stream, or file by str / Path "
-                "with LF / CRLF / CR line endings, the plain text always LF); 8% deliberately "
-                "ill-formed tables for the predicate comparison only. Non-trivial: at least one rewrite applied; "
-                "distinct by (mode, table, rewrites).")
+    out.rule = ("table values well formed in the layout(s) the case involves (0-17 columns of text / onoff / datetime (one UTC "
+                "offset per column) / numeric spellings, 0-5 rows plus a size ladder up to 16385 / 20000 rows through "
+                "read_csv, text or native cells, free destinations, marker-like names / units in non-first columns for "
+                "row-wise-only tables, text cells with line-break-like, zero-width and astral characters) x layout x random "
+                "subset of {toTransposed, header blanks, comments, trailing cells (up to 40, blank cells of several "
+                "kinds)} in random order x termination {eof, blank line, next block} x optional preceding block, through "
+                "make_table / parse_blocks / read_csv (5 separators; stream, or file by str / Path with LF / CRLF / CR "
+                "line endings, the plain text always LF) x to {pdtable, jsondata} x fixer {default, lenient, custom, "
+                "classes} x filter {none, accept-all, tables-only}; 8% deliberately ill-formed tables for the predicate "
+                "comparison only. A plain text that does not parse is a failure. Non-trivial: at least one rewrite "
+                "applied; distinct by (mode, table, rewrites).")
     rng = make_rng(seed, "C10")
-    n = 20000 if tier == "thorough" else 3000
+    n = 16000 if tier == "thorough" else 1800
     if search:
         n = 4000
     if _limit is not None:
